@@ -26,6 +26,7 @@ var Registry = map[string]PropRun{
 	"C16": {"other", RunC16},
 	"C17": {"proof", RunC17},
 	"C18": {"proof", RunC18},
+	"C19": {"other", RunC19},
 	"C20": {"proof", RunC20},
 }
 
